@@ -1,4 +1,4 @@
 SPECIFICATION TraceSpec
-CONSTANTS Focus = "batch"
- Strict = FALSE
+CONSTANTS Focus = "auth"
+ Strict = TRUE
 CHECK_DEADLOCK FALSE
